@@ -1,7 +1,7 @@
 META = {
     "level": "model_checking",
-    "technique": "TLA+ writer/reader state machine over a token wire (SftpAttr.tla: one Pack*/Unpack* step per flagged field group) model-checked by TLC over every presence combination x boundary values x extended maps; each TLC-emitted attribute set replayed through the real SFTPAttributes._pack/_unpack on a token-recording Message; recorded pack/unpack results of seeded random attribute sets validated by TLC against the same clause operators (SftpAttr_Trace.tla)",
-    "text": "TLC enumerates all 2^5 presence combinations of size, uid/gid, permissions, atime/mtime and extended attributes with boundary values (0, 1, 2^32-1, 2^32, 2^64-1 as 16-bit limbs) and extended maps of 0-2 entries, checks on the model that the flag word is exactly the set of groups present, that the reader consumes exactly what the writer wrote, that absent fields are never decoded and that the decoded set equals the encoded one, and emits every attribute set with its token encoding; each is packed and unpacked by the real code and flags, written tokens, read tokens and decoded fields are judged by TLC; seeded random sets add full-range 64/32-bit values, maps of up to 6 entries with str/bytes/non-ASCII/empty/long members, half-specified pairs and fractional times (the last two as conformance only)",
+    "technique": "TLA+ writer/reader state machine over a token wire (SftpAttr.tla: one Pack*/Unpack* step per flagged field group) model-checked by TLC over every presence combination x boundary values x extended maps and over sequences of independent attribute objects (what a block yields depends on its own input only); each TLC-emitted attribute set replayed through the real SFTPAttributes._pack/_unpack on a token-recording Message; recorded pack/unpack results of seeded random attribute sets validated by TLC against the same clause operators (SftpAttr_Trace.tla)",
+    "text": "TLC enumerates all 2^5 presence combinations of size, uid/gid, permissions, atime/mtime and extended attributes with boundary values (0, 1, 2^32-1, 2^32, 2^64-1 as 16-bit limbs) and extended maps of 0-2 entries, checks on the model that the flag word is exactly the set of groups present, that the reader consumes exactly what the writer wrote, that absent fields are never decoded and that the decoded set equals the encoded one, and emits every attribute set with its token encoding; each is packed and unpacked by the real code and flags, written tokens, read tokens and decoded fields are judged by TLC; sets are run in sequences on newly created objects (SFTPAttributes(), from_stat, _from_msg; extended attributes assigned or set in place) so state leaking between objects fails the clauses of the later block; seeded random sequences add full-range 64/32-bit values, maps of up to 6 entries with str/bytes/non-ASCII/empty/long members, half-specified pairs and fractional times (the last two as conformance only)",
     "note": "trusted: TLC, the Message subclass that logs outermost add_*/get_* calls as tokens, int<->limb conversion; uid/gid and atime/mtime are one optional pair each and extended attributes are compared as byte strings (DESIGN.md Appendix F); byte layout of the tokens is C39's concern",
 }
 import random
@@ -11,11 +11,13 @@ from harness.drivers import codec
 MUTATIONS = {"mode_flag_not_set": "PackOK", "ext_count_short": "PackOK", "times_swapped": "RoundTrip"}
 QUICK = {"U32Vals": "U32Quick", "U64Vals": "U64Quick", "Keys": "KeysTwo", "Vals": "ValsTwo"}
 TINY = {"U32Vals": "U32Quick", "U64Vals": "U64One", "Keys": "KeysOne", "Vals": "ValsTwo"}      # sensitivity runs
+SEQ = {"U32Vals": "U32One", "U64Vals": "U64One", "Keys": "KeysOne", "Vals": "ValsTwo"}         # sequences of sets
 FULL = {"U32Vals": "U32Full", "U64Vals": "U64Full", "Keys": "KeysTwo", "Vals": "ValsFull"}
 
 
-def cfg(subst, mutation="none", invariants=(), spec="Spec", fix=True):
-    return (cfg_text(spec=spec, constants={"MaxExt": 1 if subst is TINY else 2, "Mutation": mutation, "FixExtOrder": fix},
+def cfg(subst, mutation="none", invariants=(), spec="Spec", fix=True, blocks=1, shared=False):
+    return (cfg_text(spec=spec, constants={"MaxExt": 1 if subst in (TINY, SEQ) else 2, "Mutation": mutation, "FixExtOrder": fix,
+                                           "MaxBlocks": blocks, "SharedExtMap": shared},
                      invariants=invariants)
             + "CONSTANTS\n" + "".join("  %s <- %s\n" % kv for kv in subst.items()))
 
@@ -94,27 +96,44 @@ def random_case(rnd):
     return values, ext
 
 
-def judge(c, batch):
+def norm(block):
+    """a decoded / expected attribute set with the extended map as a set (its order is not part of the property)"""
+    return {k: (sorted(map(tuple, ((tuple(x), tuple(y)) for x, y in v))) if k == "ext" else v) for k, v in block.items()}
+
+
+def judge(c, traces):
+    """TLC judges every sequence; returns {trace number: {block numbers with a failed clause}}"""
     fields = ("attrs", "fractional", "flags", "wtoks", "rflags", "rtoks", "dec", "aborted")
-    res, _ = c.trace("SftpAttr_Trace", [{k: rec[k] for k in fields} for rec in batch],
+    res, _ = c.trace("SftpAttr_Trace", [{"blocks": [{k: b[k] for k in fields} for b in t["blocks"]]} for t in traces],
                      cfg(TINY, invariants=["Report"], spec="TSpec"))
-    if len(res["DONE"]) != len(batch):
-        raise Machinery("trace validation consumed %d of %d traces" % (len(res["DONE"]), len(batch)))
-    c.traces += len(batch)
-    c.verdicts(res["VERDICT"], lambda tid, clause, row: (
-        clause, "%s fails: %s%s" % (clause, describe(batch[tid - 1]),
-                                    " [%s: %s]" % (batch[tid - 1]["aborted"], batch[tid - 1]["error"]) if batch[tid - 1]["aborted"] else ""),
-        batch[tid - 1]["input"]))
-    return {row[1] for row in res["VERDICT"]}
+    if len(res["DONE"]) != len(traces):
+        raise Machinery("trace validation consumed %d of %d traces" % (len(res["DONE"]), len(traces)))
+    c.traces += len(traces)
+
+    def one(tid, clause, row):
+        name, b = clause
+        blocks = traces[tid - 1]["blocks"]
+        rec = blocks[b - 1]
+        before = ["ext %s" % x["input"]["ext"] for x in blocks[:b - 1] if x["input"]["ext"]]
+        return (name, "%s fails for block %d of a sequence of %d%s: %s%s" % (
+            name, b, len(blocks), " (earlier blocks carried %s)" % "; ".join(before[:2]) if before else "", describe(rec),
+            " [%s: %s]" % (rec["aborted"], rec["error"]) if rec["aborted"] else ""),
+            {"blocks": [x["input"] for x in blocks[:b]]})
+    # report, per clause, a sequence that explains itself (an earlier block of the same sequence had extended attributes)
+    rows = sorted(res["VERDICT"], key=lambda row: 0 if any(x["input"]["ext"] for x in traces[row[1] - 1]["blocks"][:-1]) else 1)
+    c.verdicts(rows, one)
+    return {row[1]: {cl[1] for cl in row[2]} for row in res["VERDICT"]}
 
 
 def replay(c, rp):
-    """bin/check C33 --replay replays/C33/<key>.json : the recorded attribute set again"""
+    """bin/check C33 --replay replays/C33/<key>.json : the recorded sequence of attribute sets again"""
     import ast
-    rec = codec.run_attr_roundtrip(rp["values"], [(ast.literal_eval(k), ast.literal_eval(v)) for k, v in rp["ext"]])
-    c.case(key="replay", sample={k: rec[k] for k in ("input", "flags", "wtoks", "dec")})
-    judge(c, [rec])
-    c.rule = "replay of one recorded attribute set"
+    blocks = rp["blocks"] if "blocks" in rp else [rp]
+    t = codec.run_attr_sequence([(b["values"], [(ast.literal_eval(k), ast.literal_eval(v)) for k, v in b["ext"]],
+                                  b.get("make", "init"), b.get("setext", "assign"), b.get("read", "from_msg")) for b in blocks])
+    c.case(key="replay", sample=[{k: b[k] for k in ("input", "flags", "dec")} for b in t["blocks"]])
+    judge(c, [t])
+    c.rule = "replay of one recorded sequence of attribute sets"
 
 
 def run(c):
@@ -122,49 +141,70 @@ def run(c):
         import json
         return replay(c, json.load(open(c.replay_file))["replay"])
     subst = QUICK if c.quick else FULL
-    invs = ["ReaderInside", "PackOK", "FlagsFirst", "AbsentStaysAbsent", "RoundTrip"]
-    # ---- M
+    invs = ["ReaderInside", "PackOK", "FlagsFirst", "AbsentStaysAbsent", "NoCarryOver", "RoundTrip"]
+    # ---- M: every attribute set (one block; emitted for replay) ...
     r = c.mc_holds("SftpAttr", cfg(subst, invariants=invs + ["Emit"]), name="all attribute sets", workers=1)
     cases = r.printed("CASE")
     if not cases or len(cases) * 13 != r.distinct:
         raise Machinery("expected one CASE per attribute set: %d cases, %d states" % (len(cases), r.distinct))
-    # the pinned _unpack (value slot evaluated first) as a model: the round trip invariant must fail
-    c.mc("SftpAttr", cfg(TINY, invariants=invs, fix=False), expect="RoundTrip", workers=4,
-         name="faithful to pinned _unpack (names/values swapped)")
-    for mut, inv in list(MUTATIONS.items())[:0 if c.quick else None]:
-        c.mc("SftpAttr", cfg(TINY, mutation=mut, invariants=invs), expect=inv, name="mutation " + mut, workers=4)
-    # ---- RP: spec -> code
-    batch, expect = [], []
-    presence = set()
+    # ... and sequences of independent sets: what a block yields depends on that block's input only
+    c.mc_holds("SftpAttr", cfg(SEQ, invariants=invs, blocks=3), name="sequences of 3 independent attribute sets", workers=4)
+    # all new objects aliasing one extended map (mutable default argument) as a model: a later set without extended
+    # attributes inherits them - the statement's invariants must fail
+    c.mc("SftpAttr", cfg(SEQ, invariants=["PackOK", "AbsentStaysAbsent", "RoundTrip"], blocks=2, shared=True), expect="AbsentStaysAbsent",
+         workers=1, name="shared extended map between objects")
+    if not c.quick:
+        c.mc("SftpAttr", cfg(TINY, invariants=invs, fix=False), expect="RoundTrip", workers=4, name="names/values swapped on unpack")
+        for mut, inv in MUTATIONS.items():
+            c.mc("SftpAttr", cfg(TINY, mutation=mut, invariants=invs), expect=inv, name="mutation " + mut, workers=4)
+    # ---- RP: spec -> code.  The emitted sets, three per sequence, one sequence after the other in this process
+    rnd = random.Random(c.seed)
+    traces, expect, presence = [], [], set()
     for n, (_, attrs, flags, wire) in enumerate(cases):
         values, ext = render(attrs, n)
-        rec = codec.run_attr_roundtrip(values, ext)
-        batch.append(rec)
-        expect.append((attrs, flags, wire))
+        if n % 3 == 0:
+            traces.append({"blocks": []})
+            expect.append([])
+        rec = codec.run_attr_roundtrip(values, ext, codec.ATTR_MAKE[n % 2], codec.ATTR_SET[(n // 2) % 2], codec.ATTR_READ[(n // 4) % 2])
+        traces[-1]["blocks"].append(rec)
+        expect[-1].append((attrs, flags, wire))
         presence.add(tuple(flags))
         c.case(key=("rp", n), sample={k: rec[k] for k in ("input", "flags", "wtoks", "dec")} if len(wire) == 12 else None)
     if len(presence) != 32:
         raise Machinery("the emitted cases cover %d of the 32 presence combinations" % len(presence))
-    n_rp = len(batch)
-    # ---- TV input
-    rnd = random.Random(c.seed)
-    for _ in range(1500 if c.quick else 40000):
-        values, ext = random_case(rnd)
-        rec = codec.run_attr_roundtrip(values, ext)
-        batch.append(rec)
-        c.case(key=repr((sorted(values.items()), ext)))
-    flagged = judge(c, batch)
+    n_rp = len(traces)
+    # ---- TV input: sequences that start with extended attributes and go on without
+    for _ in range(500 if c.quick else 13000):
+        blocks = []
+        for j in range(rnd.randint(2, 4)):
+            values, ext = random_case(rnd)
+            if j == 0 and not ext and rnd.random() < 0.7:
+                ext = [("first@example.com", b"\x00\x01"), (b"k", "v")][:rnd.randint(1, 2)]
+            elif j > 0 and rnd.random() < 0.7:
+                ext = []
+            blocks.append((values, ext, rnd.choice(codec.ATTR_MAKE), rnd.choice(codec.ATTR_SET), rnd.choice(codec.ATTR_READ)))
+            c.case(key=repr((sorted(values.items()), ext)))
+        traces.append(codec.run_attr_sequence(blocks))
+    flagged = judge(c, traces)
+    # the direct comparison with what TLC emitted, block by block.  TLC (the oracle) has the last word: a block it
+    # flags is reported whatever Python thinks; a block that merely differs from the emitted values in a way no clause
+    # covers is a conformance note; only "identical to what TLC emitted, yet flagged by TLC" is a harness inconsistency
     for tid in range(1, n_rp + 1):
-        rec, (attrs, flags, wire) = batch[tid - 1], expect[tid - 1]
-        same = (rec["flags"] == flags and rec["rflags"] == flags and rec["wtoks"] == wire and rec["rtoks"] == wire
-                and rec["dec"] == attrs)
-        if same == (tid in flagged):
-            raise Machinery("replay comparison and trace verdict disagree on %s" % describe(rec))
+        for b, (rec, (attrs, flags, wire)) in enumerate(zip(traces[tid - 1]["blocks"], expect[tid - 1]), 1):
+            same = (rec["flags"] == flags and rec["rflags"] == flags and rec["wtoks"] == wire and rec["rtoks"] == wire
+                    and norm(rec["dec"]) == norm(attrs) and not rec["aborted"])
+            hit = b in flagged.get(tid, ())
+            if same and hit:
+                raise Machinery("TLC flags a block that equals what TLC emitted: %s" % describe(rec))
+            if not same and not hit:
+                c.conformance("differs_from_emitted_unflagged", "differs from the emitted case in a way no clause covers: " + describe(rec))
     if flagged and not (c.violations or c.known_hits or c.conf):
         raise Machinery("TLC flagged %d traces but no verdict was registered" % len(flagged))
     c.rule = ("every attribute set over the 32 presence combinations x boundary values x extended maps of 0-2 entries "
-              "(%d sets, TLC-enumerated) + seeded random sets with full-range values, maps up to 6 entries, half pairs and "
-              "fractional times; distinct = distinct attribute sets" % len(cases))
+              "(%d sets, TLC-enumerated, run three per sequence on new objects made by SFTPAttributes()/from_stat/_from_msg) + seeded "
+              "random sequences of 2-4 sets (extended attributes first, then mostly none) with full-range values, maps up to 6 "
+              "entries, half pairs and fractional times; distinct = distinct attribute sets" % len(cases))
     c.extra["exhaustive"] = True
     c.assumptions = ["uid/gid and atime/mtime are optional pairs; extended attribute names are distinct as byte strings",
-                     "values are in range (sizes < 2^64, ids/modes/times < 2^32, non-negative)"]
+                     "values are in range (sizes < 2^64, ids/modes/times < 2^32, non-negative)",
+                     "every attribute set is put on a newly created object; all sequences run in one process"]
